@@ -283,6 +283,11 @@ func (p *Proc) Signal(sig os.Signal) error {
 	p.Signals = append(p.Signals, SignalRec{since(), name, "delivered"})
 	react := p.Spec[name]
 	p.mu.Unlock()
+	if v, ok := p.Spec["onsig"]; ok && name != "kill" {
+		// a signal handler that saves state under the process's directory
+		os.MkdirAll(p.Dir, 0o777)
+		os.WriteFile(filepath.Join(p.Dir, v), []byte("saved on "+name+"\n"), 0o666)
+	}
 	sigName := map[string]string{"int": "interrupt", "kill": "killed", "quit": "quit", "term": "terminated"}[name]
 	switch {
 	case name == "kill":
